@@ -37,13 +37,15 @@ func draw(t *rapid.T) sim.ChainCase {
 				if b.V1Revise() {
 					b.V1ReviseAgainInBlock()
 				}
-				if b.V2Revise() {
-					if rapid.Bool().Draw(g.T, "againOrRenew") {
-						b.V2ReviseAgainInBlock()
-					} else {
-						b.V2RenewRevisedInBlock()
+				b.AfterV1(func() {
+					if b.V2Revise() {
+						if rapid.Bool().Draw(g.T, "againOrRenew") {
+							b.V2ReviseAgainInBlock()
+						} else {
+							b.V2RenewRevisedInBlock()
+						}
 					}
-				}
+				})
 			}
 		},
 		BeforeApply: func(g *sim.Gen, honest types.Block, bs consensus.V1BlockSupplement) {
